@@ -90,4 +90,75 @@ theorem C09_no_default_case (input : Enum) (ctx : ImplContext) (hd : ctx.structA
     defaultArm input ctx = [] := by
   simp [defaultArm, hd]
 
+/-! ### whole `match`, any number of variants -/
+
+/-- a variant that takes part through a `#[literal(..)]` only -/
+def LiteralOnly (ctx : ImplContext) (v : Variant) : Prop :=
+  v.attrs.applicableAttr ctx.kind ctx.fallible ctx.ty = none ∧ (v.attrs.lit ctx.ty).isSome ∧ v.attrs.pat ctx.ty = none
+
+/-- the table the instructions designate: literal ↦ variant, in declaration order -/
+def literalTable (ctx : ImplContext) (vs : List Variant) : List (TS × String) :=
+  vs.filterMap fun v => (v.attrs.lit ctx.ty).map fun l => (l.tokens, v.ident)
+
+/-- C09 (whole From `match`): for an enum whose contributing variants are all `#[literal]` variants, the k-th arm of
+    the generated `match` is `literal_k => Dst::Variant_k <init>,` for the k-th contributing variant — the arm list *is*
+    the designated table, in declaration order, for any number of variants -/
+theorem C09_from_arm_table (input : Enum) (ctx : ImplContext) (arms : List TS)
+    (hk : ctx.kind.cls = .from_)
+    (hall : ∀ v ∈ input.variants.filter (variantContributes ctx), LiteralOnly ctx v)
+    (h : (input.variants.filter (variantContributes ctx)).mapM (renderEnumLine · ctx) = .ok arms) :
+    arms.length = (literalTable ctx (input.variants.filter (variantContributes ctx))).length ∧
+    ∀ k (hk1 : k < arms.length) (hk2 : k < (literalTable ctx (input.variants.filter (variantContributes ctx))).length),
+      ∃ init, arms[k] = (literalTable ctx (input.variants.filter (variantContributes ctx)))[k].1 ++ fatArrow ++ ctx.dstTy ++ cc ++
+        [Tok.ident (literalTable ctx (input.variants.filter (variantContributes ctx)))[k].2] ++ init ++ [comma] := by
+  generalize input.variants.filter (variantContributes ctx) = vs at hall h
+  -- every variant contributes one table row
+  have htab : ∀ (ws : List Variant), (∀ v ∈ ws, LiteralOnly ctx v) →
+      literalTable ctx ws = ws.map fun v => (((v.attrs.lit ctx.ty).map (·.tokens)).getD [], v.ident) := by
+    intro ws
+    induction ws with
+    | nil => intro _; rfl
+    | cons v ws ih =>
+      intro hws
+      have hv := hws v List.mem_cons_self
+      obtain ⟨l, hl⟩ := Option.isSome_iff_exists.mp hv.2.1
+      have := ih (fun w hw => hws w (List.mem_cons_of_mem _ hw))
+      unfold literalTable at this ⊢
+      simp [List.filterMap_cons, hl, this]
+  have htab := htab vs hall
+  have hlen := mapM_ok_length h
+  refine ⟨by rw [hlen, htab, List.length_map], ?_⟩
+  intro k hk1 hk2
+  have hkv : k < vs.length := by rw [← hlen]; exact hk1
+  have harm := mapM_ok_getElem h k hkv hk1
+  have hv := hall vs[k] (List.getElem_mem hkv)
+  obtain ⟨l, hl⟩ := Option.isSome_iff_exists.mp hv.2.1
+  obtain ⟨init, hinit⟩ := C09_from_literal vs[k] ctx l arms[k] hk hv.1 hl hv.2.2 harm
+  refine ⟨init, ?_⟩
+  simp only [htab, List.getElem_map, hl, Option.map_some, Option.getD_some]
+  exact hinit
+
+/-- reading of a `match` whose patterns are literals: the first arm whose literal equals the scrutinee is taken -/
+def firstMatch (table : List (TS × String)) (x : TS) : Option String := (table.find? (fun r => decide (r.1 = x))).map (·.2)
+
+/-- C09 (values): with pairwise distinct literals every literal selects exactly its own variant; with a repeated
+    literal the variant declared first wins (declaration order = arm order, `C09_from_arm_table`) -/
+theorem C09_value_first_declared : ∀ (table : List (TS × String)) (row : TS × String), row ∈ table →
+    ∃ v, firstMatch table row.1 = some v ∧ ((table.map (·.1)).Nodup → v = row.2)
+  | [], _, h => by simp at h
+  | r :: table, row, h => by
+    by_cases he : r.1 = row.1
+    · refine ⟨r.2, by simp [firstMatch, List.find?, he], ?_⟩
+      intro hnd
+      rcases List.mem_cons.mp h with rfl | h'
+      · rfl
+      · have hnot : r.1 ∉ table.map (·.1) := (List.nodup_cons.mp (by simpa using hnd)).1
+        exact absurd (List.mem_map.mpr ⟨row, h', he.symm⟩) hnot
+    · have h' : row ∈ table := by
+        rcases List.mem_cons.mp h with rfl | h'
+        · exact absurd rfl he
+        · exact h'
+      obtain ⟨v, hv, hn⟩ := C09_value_first_declared table row h'
+      refine ⟨v, by simpa [firstMatch, List.find?, he] using hv, fun hnd => hn (List.nodup_cons.mp (by simpa using hnd)).2⟩
+
 end O2o
